@@ -5,6 +5,7 @@ import (
 	"errors"
 	"encoding/json"
 	"fmt"
+	"io"
 
 	flyt "github.com/mark3labs/flyt"
 
@@ -48,6 +49,17 @@ type zeroBaseNode struct {
 func (n *zeroBaseNode) GetMaxRetries() int { return 1 }
 func (n *zeroBaseNode) Post(ctx context.Context, s *flyt.SharedStore, p, e any) (flyt.Action, error) {
 	return flyt.Action(n.post), nil
+}
+
+// oddPostNode's post returns a fixed action and error.
+type oddPostNode struct {
+	*flyt.BaseNode
+	post string
+	err  error
+}
+
+func (n *oddPostNode) Post(ctx context.Context, s *flyt.SharedStore, p, e any) (flyt.Action, error) {
+	return flyt.Action(n.post), n.err
 }
 
 type zeroBasePtrNode struct {
@@ -149,6 +161,135 @@ func runActCase(cs *ActCase) (fs []finding) {
 		}()
 		if !panicked && err == nil && act == "" {
 			add("empty-action:panicking-callback:"+cs.Shape, "the %s callback panicked with a value of kind %s; the run came back as a SUCCESS with the empty action (routed inside a flow: %v)", cs.Shape, cs.Build, cs.Routed)
+		}
+		return
+	case "post-fails-with-odd-error":
+		// post reports the empty action next to an error value that looks harmless (an aggregate without entries, a
+		// typed nil, io.EOF): the run either fails or — were it to succeed — still reports a non-empty action
+		errs := map[string]error{"empty-batch-error": &flyt.BatchError{}, "wrapped-empty-batch-error": fmt.Errorf("post: %w", &flyt.BatchError{}), "nil-batch-error": (*flyt.BatchError)(nil),
+			"typed-nil": (*scen.NilableErr)(nil), "io.EOF": io.EOF, "nil-slice-error": scen.MultiErr(nil), "empty-joined": errors.Join(&flyt.BatchError{}, &flyt.BatchError{})}
+		pe := errs[cs.Build]
+		switch cs.Shape {
+		case "batch-builder", "batch-node":
+			bn := flyt.NewBatchNode().WithBatchConcurrency(cs.C).
+				WithPrepFunc(func(ctx context.Context, s *flyt.SharedStore) ([]flyt.Result, error) {
+					items := make([]flyt.Result, cs.N)
+					for i := range items {
+						items[i] = flyt.NewResult(i)
+					}
+					return items, nil
+				}).
+				WithExecFuncAny(func(ctx context.Context, v any) (any, error) { return v, nil }).
+				WithPostFunc(func(ctx context.Context, s *flyt.SharedStore, items, results []flyt.Result) (flyt.Action, error) {
+					return flyt.Action(cs.Post), pe
+				})
+			node = bn
+			if cs.Shape == "batch-node" {
+				node = bn.BatchNode
+			}
+		case "func":
+			node = flyt.NewNode().WithPostFuncAny(func(ctx context.Context, s *flyt.SharedStore, p, e any) (flyt.Action, error) { return flyt.Action(cs.Post), pe })
+		default:
+			node = &oddPostNode{flyt.NewBaseNode(), cs.Post, pe}
+		}
+		var hit int
+		var act flyt.Action
+		var err error
+		if cs.Routed {
+			f := flyt.NewFlow(node)
+			f.Connect(node, flyt.DefaultAction, &probeNode{flyt.NewBaseNode(), &hit})
+			act, err = flyt.Run(context.Background(), f, flyt.NewSharedStore())
+			if err == nil && hit == 0 {
+				add("default-connection-not-followed:post-fails-with-odd-error:"+cs.Build, "post of a %s node returned (%q, %s error); the flow run SUCCEEDED, and the connection on the default action was not followed: the node's run ended without error and without a usable action", cs.Shape, cs.Post, cs.Build)
+			}
+			return
+		}
+		act, err = flyt.Run(context.Background(), node, flyt.NewSharedStore())
+		if err == nil && act == "" {
+			add("empty-action:post-fails-with-odd-error:"+cs.Build, "post of a %s node returned (%q, %s error); the run came back as a SUCCESS with the empty action (n=%d c=%d)", cs.Shape, cs.Post, cs.Build, cs.N, cs.C)
+		}
+		return
+	case "run-inside-flow-step":
+		// a callback of a flow step starts another run by hand, with the context it was given: that run is a run like any
+		// other — when it succeeds, its action is not empty
+		var sub flyt.Node
+		mkBatch := func() *flyt.BatchNodeBuilder {
+			return flyt.NewBatchNode().WithBatchConcurrency(cs.C).
+				WithPrepFunc(func(ctx context.Context, s *flyt.SharedStore) ([]flyt.Result, error) {
+					items := make([]flyt.Result, cs.N)
+					for i := range items {
+						items[i] = flyt.NewResult(i)
+					}
+					return items, nil
+				}).
+				WithExecFuncAny(func(ctx context.Context, v any) (any, error) { return v, nil }).
+				WithPostFunc(func(ctx context.Context, s *flyt.SharedStore, items, results []flyt.Result) (flyt.Action, error) {
+					return flyt.Action(cs.Post), nil
+				})
+		}
+		switch cs.Build {
+		case "struct":
+			sub = &oddPostNode{flyt.NewBaseNode(), cs.Post, nil}
+		case "struct-default-post":
+			sub = &struct{ *flyt.BaseNode }{flyt.NewBaseNode()}
+		case "func-options":
+			sub = flyt.NewNode(flyt.WithPostFuncAny(func(ctx context.Context, s *flyt.SharedStore, p, e any) (flyt.Action, error) { return flyt.Action(cs.Post), nil }))
+		case "func-builder":
+			sub = flyt.NewNode().WithPostFuncAny(func(ctx context.Context, s *flyt.SharedStore, p, e any) (flyt.Action, error) { return flyt.Action(cs.Post), nil })
+		case "func-no-post":
+			sub = flyt.NewNode().WithExecFuncAny(func(ctx context.Context, p any) (any, error) { return 1, nil })
+		case "batch-builder":
+			sub = mkBatch()
+		case "batch-node":
+			sub = mkBatch().BatchNode
+		case "flow":
+			sub = flyt.NewFlow(&oddPostNode{flyt.NewBaseNode(), cs.Post, nil})
+		}
+		store := flyt.NewSharedStore()
+		var subAct flyt.Action
+		var subErr error
+		ran := false
+		hand := func(ctx context.Context) { subAct, subErr = flyt.Run(ctx, sub, store); ran = true }
+		step := flyt.NewNode().
+			WithPrepFuncAny(func(ctx context.Context, s *flyt.SharedStore) (any, error) {
+				if cs.Shape == "prep" {
+					hand(ctx)
+				}
+				return nil, nil
+			}).
+			WithExecFuncAny(func(ctx context.Context, p any) (any, error) {
+				if cs.Shape == "exec" {
+					hand(ctx)
+				}
+				return nil, nil
+			}).
+			WithPostFuncAny(func(ctx context.Context, s *flyt.SharedStore, p, e any) (flyt.Action, error) {
+				if cs.Shape == "post" {
+					hand(ctx)
+				}
+				return "stepped", nil
+			})
+		var outer flyt.Node = flyt.NewFlow(step)
+		if cs.Routed {
+			outer = flyt.NewFlow(outer) // the step sits one level further down
+		}
+		if _, err := flyt.Run(context.Background(), outer, store); err != nil {
+			add("flow-failed:run-inside-flow-step", "the surrounding flow failed: %v", err)
+			return
+		}
+		wantSub := want
+		if cs.Build == "struct-default-post" || cs.Build == "func-no-post" {
+			wantSub = "default"
+		}
+		switch {
+		case !ran:
+			add("hand-started-run-missing", "the %s callback of the flow step never ran", cs.Shape)
+		case subErr != nil:
+			add("run-failed:run-inside-flow-step:"+cs.Build, "a %s node run by hand from the %s callback of a flow step failed: %v", cs.Build, cs.Shape, subErr)
+		case subAct == "":
+			add("empty-action:run-inside-flow-step:"+cs.Build, "a %s node run by hand (flyt.Run with the callback's context) from the %s callback of a flow step succeeded with the empty action (its post returned %q)", cs.Build, cs.Shape, cs.Post)
+		case string(subAct) != wantSub:
+			add("wrong-action:run-inside-flow-step:"+cs.Build, "a %s node run by hand from the %s callback of a flow step returned action %q, want %q", cs.Build, cs.Shape, subAct, wantSub)
 		}
 		return
 	case "batch-no-exec":
@@ -410,6 +551,21 @@ func runC18(c *Cfg) {
 					for _, vk := range []string{"int", "struct", "ptr", "nil-error-iface", "bool"} {
 						cases = append(cases, &ActCase{Family: "grid-panicking-callback", Kind: "panicking-callback", Post: post, Routed: routed, FailAt: -1, Shape: ph, Build: vk})
 					}
+				}
+			}
+			for _, ek := range []string{"empty-batch-error", "wrapped-empty-batch-error", "nil-batch-error", "typed-nil", "io.EOF", "nil-slice-error", "empty-joined"} {
+				for _, sh := range []string{"batch-builder", "batch-node", "func", "struct"} {
+					for n := 0; n <= 2; n++ {
+						if n > 0 && sh != "batch-builder" && sh != "batch-node" {
+							continue
+						}
+						cases = append(cases, &ActCase{Family: "grid-post-failing-with-a-harmless-looking-error", Kind: "post-fails-with-odd-error", Post: post, Routed: routed, N: n, C: n, FailAt: -1, Shape: sh, Build: ek})
+					}
+				}
+			}
+			for _, ph := range []string{"prep", "exec", "post"} {
+				for _, b := range []string{"struct", "struct-default-post", "func-options", "func-builder", "func-no-post", "batch-builder", "batch-node", "flow"} {
+					cases = append(cases, &ActCase{Family: "grid-run-started-by-hand-inside-a-flow-step", Kind: "run-inside-flow-step", Post: post, Routed: routed, N: 2, C: len(ph) % 3, FailAt: -1, Shape: ph, Build: b})
 				}
 			}
 			for n := 1; n <= 3; n++ {
